@@ -47,7 +47,7 @@ type Ctx struct {
 	Prop     string
 	Tier     string
 	Obs      []Ob
-	Floors   map[string]int // rule -> min #non-fixture instances
+	Floors   map[string]int  // rule -> min #non-fixture instances
 	NeedFix  map[string]bool // rule -> fixture must fire
 	Notes    []string
 	Assume   []string
@@ -85,8 +85,8 @@ func (c *Ctx) needFixture(rule string) {
 	c.NeedFix[c.Prop+"/"+rule] = true
 }
 func (c *Ctx) note(f string, a ...any) { c.Notes = append(c.Notes, fmt.Sprintf(f, a...)) }
-func (c *Ctx) assume(s string)        { c.Assume = append(c.Assume, s) }
-func (c *Ctx) cut(s string)           { c.Cuts = append(c.Cuts, s) }
+func (c *Ctx) assume(s string)         { c.Assume = append(c.Assume, s) }
+func (c *Ctx) cut(s string)            { c.Cuts = append(c.Cuts, s) }
 func (c *Ctx) saw(fn string) {
 	if c.Analysed == nil {
 		c.Analysed = map[string]bool{}
@@ -289,8 +289,8 @@ func (c *Ctx) finish(verifDir string, t0 time.Time, seed int) int {
 			"build configuration linux/amd64 with default tags; _test.go files are not part of the analysed program",
 			"package juno/jemalloc (cgo pkg-config) is the only tolerated load error",
 		}, c.Assume...),
-		"wall_s":      time.Since(t0).Seconds(),
-		"violations":  nViol + nUnd,
+		"wall_s":     time.Since(t0).Seconds(),
+		"violations": nViol + nUnd,
 	}
 	b, _ := json.MarshalIndent(ev, "", " ")
 	os.MkdirAll(filepath.Join(verifDir, "evidence"), 0o755)
@@ -322,8 +322,8 @@ func selfTestSummary(rs []SelfTestResult) map[string]any {
 		rs = []SelfTestResult{}
 	}
 	return map[string]any{
-		"what":    "thorough tier only: each stored seeded fault recorded as detected by this property's rules is overlaid (patched copies of the touched files, /repo untouched) and the check re-run; a miss means a rule lost its teeth on the current tree; stale = the patch no longer applies",
-		"caught":  n["caught"], "missed": n["missed"], "stale": n["stale"],
+		"what":   "thorough tier only: each stored seeded fault recorded as detected by this property's rules is overlaid (patched copies of the touched files, /repo untouched) and the check re-run; a miss means a rule lost its teeth on the current tree; stale = the patch no longer applies",
+		"caught": n["caught"], "missed": n["missed"], "stale": n["stale"],
 		"results": rs,
 	}
 }
@@ -336,7 +336,6 @@ func keys(m map[string]bool) []string {
 	sort.Strings(o)
 	return o
 }
-
 
 func nonNil(s []string) []string {
 	if s == nil {
